@@ -44,6 +44,13 @@ def siteOf (kind : String) (x y : Nat) : Option (List Ev) :=
   else if kind == "arrayFromScalar" then some (siteArrayFromScalarArray x)
   else if kind == "fixedFromScalar" then some (siteArrayFromScalarFixed x)
   else if kind == "conditional" then some (siteConditionalArray x (List.replicate y true))
+  -- array forms of add_derivative_dependence: x = n (reserved), y = number of non-zero multipliers (pushed)
+  else if kind == "activeAddDep" then some (siteActiveAddDep x y)
+  else if kind == "activeRefAddDep" then some (siteActiveRefAddDep x y)
+  else if kind == "activeConstRefAddDep" then some (siteActiveConstRefAddDep x y)
+  else if kind == "elemTemporary" then some siteActiveElemCtor
+  else if kind == "diagVectorUpper" then some (siteDiagVectorUpper x y)
+  else if kind == "diagVectorLower" then some (siteDiagVectorLower x y)
   else none
 
 def siteKinds : List String :=
